@@ -268,16 +268,35 @@ def renderExtraList : Option (Bytes × List (Ws × Ws × Bytes)) → Bytes
 def renderSpecList (s : Spec) (rest : List (Ws × Ws × Spec)) : Bytes :=
   s.render ++ (rest.map fun (a, b, x) => a.bytes ++ [44] ++ b.bytes ++ x.render).flatten
 
+/-- The specifier part as written: bare, or `'(' wsp* … wsp* ')'`. -/
+def renderSpecBody (p : Option (Ws × Ws)) (s : Spec) (rest : List (Ws × Ws × Spec)) : Bytes :=
+  match p with
+  | none => renderSpecList s rest
+  | some (a, b) => [40] ++ a.bytes ++ renderSpecList s rest ++ b.bytes ++ [41]
+
+/-- The specifier list without the parentheses. -/
+def specInner (p : Option (Ws × Ws)) (s : Spec) (rest : List (Ws × Ws × Spec)) : Bytes :=
+  match p with
+  | none => renderSpecList s rest
+  | some (a, b) => a.bytes ++ renderSpecList s rest ++ b.bytes
+
+/-- The text between the brackets without its surrounding blanks. -/
 def Requirement.extrasText (r : Requirement) : Bytes :=
   match r.extras with
   | none => []
   | some (_, _, xs, _) => renderExtraList xs
 
+/-- The specifier list as text (without enclosing parentheses). -/
 def Requirement.specText (r : Requirement) : Bytes :=
   match r.specs with
   | none => []
-  | some (_, none, s, rest) => renderSpecList s rest
-  | some (_, some (a, b), s, rest) => a.bytes ++ renderSpecList s rest ++ b.bytes
+  | some (_, p, s, rest) => specInner p s rest
+
+/-- The marker as written, without the blanks around it (`[]` when there is none). -/
+def Requirement.markerText (r : Requirement) (trim : Bytes → Bytes) : Bytes :=
+  match r.marker with
+  | none => []
+  | some (_, m) => trim m.render
 
 def Requirement.render (r : Requirement) : Bytes :=
   r.wLead.bytes ++ r.name ++
@@ -286,8 +305,7 @@ def Requirement.render (r : Requirement) : Bytes :=
    | some (w, a, xs, b) => w.bytes ++ [91] ++ a.bytes ++ renderExtraList xs ++ b.bytes ++ [93]) ++
   (match r.specs with
    | none => []
-   | some (w, none, s, rest) => w.bytes ++ renderSpecList s rest
-   | some (w, some (a, b), s, rest) => w.bytes ++ [40] ++ a.bytes ++ renderSpecList s rest ++ b.bytes ++ [41]) ++
+   | some (w, p, s, rest) => w.bytes ++ renderSpecBody p s rest) ++
   (match r.marker with
    | none => []
    | some (w, m) => w.bytes ++ [59] ++ m.render) ++
